@@ -84,10 +84,14 @@ PROPS = {
              generated=["LockFacts", "GenLockCheck"], race_build=True,
              partial="the Go memory model, races inside dependencies and accesses the syntactic table cannot see are outside the model; for fields not guarded by the database lock "
                      "(session fields, statistics, connection flags) the deciding evidence is the race-detector run, not a theorem"),
-    "C20": P(["PropC20"], ["C20"],
+    "C20": P(["PropC20", "PropC20Cxn"], ["C20"],
              "lifecycle: wait-group model of an emulator instance with tracked connections (Lifecycle.v): termination can always complete by steps of the emulator alone, "
-             "after it no command of an old connection and no accept is enabled, instances do not touch each other's data or clients + correspondence: Close() latency with "
-             "clients idle / mid-pipeline / in MULTI / blocked / busy, old connections refused afterwards, data unchanged, successor on the same port starts empty, two instances, start/stop cycles",
+             "after it no command of an old connection and no accept is enabled, instances do not touch each other's data or clients; the event loop of one connection (Cxn.v, labels = the "
+             "cxn.* schedule points of clientCxn.go): at most two events queued (channel capacity 3 never blocks), one command at a time, no socket read pending after a close request "
+             "unless the request closed the socket, the terminate event is never lost, after a close request the loop ends within 8 of its own steps "
+             "+ correspondence: Close() latency with "
+             "clients idle / mid-pipeline / in MULTI / blocked / busy, old connections refused afterwards, data unchanged, successor on the same port starts empty, two instances, start/stop cycles; "
+             "trace inclusion: every label sequence a connection reports is replayed through the extracted cstep and must be a run of Cxn.v, ending in PDone once Close() has returned",
              partial="TIME_WAIT/port reuse, goroutine leaks and os.Exit on a failed listen are runtime behaviour outside the model"),
     "C13": P(["PropC13", "PropC06"], ["C13", "C01"],
              "robustness: the parser model has explicit Panic outcomes at every Go indexing site and is proved never to reach one (all byte strings), a parsed "
